@@ -47,7 +47,7 @@ CLAIMED = {
              text="SqPack.tla defines path resolution, keys and the reference answers; MC_SqPack explores every query history over 913 "
                   "layouts (quick: <= 3 calls; thorough: no bound - the memo saturates and TLC reaches the fixpoint over (layout, memo, last call) states) with the implementation-shaped memoised search and checks AnswerIsReference, HistoryFree, CaseFree, FallbackToBase. One history "
                   "per transition of that model and stratified random installations are written to disk by an independent SqPack writer, queried "
-                  "through the real GameData, and TLC recomputes category, repository, file, JAMCRC key, entry and location for every answer.",
+                  "through the real GameData, and TLC recomputes category, repository, file, JAMCRC key, entry and location for every answer and compares every answer of a handle with its earlier answers to the same question (incl. paths held by two chunks).",
              note="Trusts TLC, gen/sqpack.py (layout recalled from public docs), the shim; index-type position unverifiable offline (written at both candidates).",
              ref="5 C01"),
  "C02": dict(cat="model_checking", tech="TLC check of the reassembly laws (incl. model header) and inflate lifecycle machine + TLC trace validation of real extractions in a run-length payload algebra",
